@@ -60,11 +60,13 @@ class LifterModel(object):
     def _read_dispatch(self):
         return None
 
-    def call_pattern(self, name, args):
+    def call_pattern(self, name, args, same=False):
         """Which of l, my_eip, args[0], *args get_instr_expr_args hands to the semantic function of this mnemonic: found by evaluating the function
-        itself (consteval) with recording stand-ins for mnemo_func / MMXnoflags, whatever shape its if/elif chain has."""
+        itself (consteval) with recording stand-ins for mnemo_func / MMXnoflags, whatever shape its if/elif chain has.  `same`: both operands are one object
+        (an instruction naming one register twice); the semantic function that was called is kept in self._callee[(name, first_int, same)]."""
         first_int = bool(args and isinstance(args[0], TInt))
-        key = (name, first_int)
+        key = (name, first_int, bool(same))
+        callee_of = self.__dict__.setdefault('_callee', {})
         cache = self.__dict__.setdefault('_pattern_cache', {})
         if key in cache:
             return cache[key]
@@ -133,18 +135,12 @@ class LifterModel(object):
         for fname_, fnode_ in self.eh.funcs.items():
             scope.setdefault(fname_, fnode_)
         try:
-            # the dispatch must not depend on whether the two operands are one object (the form model lifts `op r, r` like `op r1, r2`): asked first with the same
-            # operand twice, then - the answer that is used - with two operands
-            Evaluator(dict(scope)).call_user(fn, [l, [A0, A0], EIP])
-            same_ = [c_ for c_, _ in seen]
-            del seen[:]
-            Evaluator(scope).call_user(fn, [l, [A0, A1], EIP])
-            if same_ != [c_ for c_, _ in seen]:
-                raise AnalysisError('get_instr_expr_args dispatches %s differently when both operands are the same register (%s / %s): instructions naming one register twice '
-                                    'are not in the form model' % (name, same_, [c_ for c_, _ in seen]))
+            # asked with the same operand object twice for a form that names one register twice, with two operands otherwise
+            Evaluator(scope).call_user(fn, [l, [A0, A0] if same else [A0, A1], EIP])
         except PyRaise as e:
             if e.exc_name == 'KeyError':
                 cache[key] = ('l', '*args')         # no lifter: the failing lookup of the last branch
+                callee_of[key] = 'mnemo_func'
                 return cache[key]
             raise AnalysisError('get_instr_expr_args raises %s for %s' % (e.exc_name, name))
         except NotConst as e:
@@ -155,7 +151,8 @@ class LifterModel(object):
         if not a or a[0] is not l:
             raise AnalysisError('get_instr_expr_args does not pass the instruction first for %s' % name)
         rest = a[1:]
-        table = {(A0,): ('l', 'args[0]'), (A0, A1): ('l', '*args'), (EIP, A0): ('l', 'my_eip', 'args[0]'), (EIP, A0, A1): ('l', 'my_eip', '*args')}
+        A1_ = A0 if same else A1
+        table = {(A0,): ('l', 'args[0]'), (A0, A1_): ('l', '*args'), (EIP, A0): ('l', 'my_eip', 'args[0]'), (EIP, A0, A1_): ('l', 'my_eip', '*args')}
         pat = None
         for k_, v_ in table.items():
             if len(k_) == len(rest) and all(x is y for x, y in zip(k_, rest)):
@@ -163,6 +160,7 @@ class LifterModel(object):
         if pat is None:
             raise AnalysisError('get_instr_expr_args: unmodelled argument list for %s' % name)
         cache[key] = pat
+        callee_of[key] = callee
         return pat
 
     def _eval_list(self, mod, name):
@@ -406,9 +404,12 @@ class LifterModel(object):
             if modifs.get(mmx) and self.rich:
                 # base + index*4 + disp: the scale becomes a constant of the address arithmetic
                 alts.append(('reg,rm=sib', {afs.ad: True, 5: 1, 1: 4, afs.imm: ModVal(32, self.cval(32))}))
+                if opm_ == adm_ and adm_ in (afs.mm, afs.xmm):
+                    # one register named twice (pxor xmm1, xmm1): the dispatch of get_instr_expr_args and the semantic function may tell it apart
+                    alts.append(('reg,rm=same', {afs.ad: False, (1 + reg_cat): 1}))
         for tag, modr in alts:
             # the ModRM byte as _dis pre-processes it (mod forced to 3 for cr/dr rows, non-existent segment registers rejected)
-            c0 = (0xC0 if not modr[afs.ad] else 0x80) | (1 << 3) | (2 if not modr[afs.ad] else 5)
+            c0 = (0xC0 if not modr[afs.ad] else 0x80) | (1 << 3) | ((1 if tag == 'reg,rm=same' else 2) if not modr[afs.ad] else 5)
             c1 = X.dis_rmr_pre(modifs, c0)
             if c1 == 'rejected' or (modr[afs.ad] and (c1 >> 6) == 3):
                 continue
@@ -486,7 +487,15 @@ class LifterModel(object):
             if self.concrete:
                 info.offset = 0
             name = inst.name
-            pat = self.call_pattern(name, args)
+            same = inst.form.startswith('reg,rm=same') and len(args) == 2
+            pat = self.call_pattern(name, args, same)
+            callee = self._callee.get((name, bool(args and isinstance(args[0], TInt)), bool(same)))
+            if callee not in (None, 'mnemo_func', how):
+                # the dispatch chose another semantic function of ia32_sem for this form
+                f2 = I.g.get(callee)
+                if not isinstance(f2, FuncVal):
+                    raise AnalysisError('get_instr_expr_args lifts %s (%s) with %s, which is not a function of ia32_sem' % (name, inst.form, callee))
+                f, inst.func, inst.how = f2, f2, callee
             if 'args[0]' in pat and not args:
                 inst.results = [([], LiftError('IndexError', 'get_instr_expr_args: args[0] on an instruction without operand', None))]
                 return inst
